@@ -111,7 +111,10 @@ def r08_3(ctx, counts) -> RuleResult:
         raise AnalysisError('XPathContext.iter_product vanished')
     sel = f.params()[1]
     calls = []
-    for n in walk_local(f.node):
+    # nested closures of iter_product see the same `self` and `selectors`
+    shadow = any(isinstance(d, (ast.FunctionDef, ast.Lambda)) and d is not f.node and
+                 any(a.arg in ('self', sel) for a in d.args.args) for d in ast.walk(f.node))
+    for n in (walk_local(f.node) if shadow else ast.walk(f.node)):
         if isinstance(n, ast.Call) and n.args and not n.keywords:
             fn = n.func
             # x(ARG) with x iterating `selectors`, or selectors[k](ARG)
@@ -129,7 +132,9 @@ def r08_3(ctx, counts) -> RuleResult:
                             loop.target.id == fn.id and dotted(loop.iter) == sel and any(
                             x is n for x in ast.walk(loop)):
                         calls.append(n)
-    if len(calls) < 2:
+    nested = [d for d in ast.walk(f.node) if isinstance(d, ast.FunctionDef) and d is not f.node
+              and any(x is c for c in calls for x in ast.walk(d))]
+    if len(calls) < (1 if nested else 2):
         raise AnalysisError(f'iter_product: {len(calls)} selector calls located (creation and '
                             f're-creation expected)')
     for c in calls:
